@@ -21,7 +21,7 @@ E == T[l]
 
 HcOf(c) == [h \in H |-> [reasons |-> Range(c.hc[h].reasons), optional |-> c.hc[h].optional,
                           deleted |-> c.hc[h].deleted, retries |-> c.hc[h].retries, mode |-> c.hc[h].mode,
-                          backoff |-> c.hc[h].backoff]]
+                          backoff |-> c.hc[h].backoff, timeout |-> c.hc[h].timeout]]
 ConfOf(c) == IF "dh" \in DOMAIN c
              THEN [hc |-> HcOf(c), order |-> c.order, lifecycle |-> c.lifecycle, ctimeout |-> c.ctimeout,
                    dh |-> c.dh, polling |-> c.polling, exitto |-> c.exitto]
@@ -49,7 +49,9 @@ TInit ==
 Ev(e) == l <= Len(T) /\ E.ev = e /\ E.t = now /\ l' = l + 1 /\ UNCHANGED tid
 Keep == UNCHANGED <<tid, l>>
 
-ProgOf(p) == [h \in H |-> [st |-> p[h].st, r |-> p[h].r, pu |-> p[h].pu, until |-> p[h].until]]
+\* (the creation instant of a record is compared only when some handler of the operator has a timeout)
+ProgOf(p) == [h \in H |-> [st |-> p[h].st, r |-> p[h].r, pu |-> p[h].pu, until |-> p[h].until,
+                           first |-> IF AnyTimeout /\ p[h].st # "none" THEN p[h].first ELSE 0]]
 ObjIs(o, e) == /\ o.rv = e.rv /\ o.ess = e.ess /\ o.lh = e.lh /\ o.prog = ProgOf(e.prog) /\ o.fins = e.fins
                /\ o.deleting = e.deleting /\ (o.dummy # 0) = e.dummy /\ o.match = e.match
 
@@ -91,19 +93,19 @@ TExit    == Ev("exit") /\ IF Known(E.h) /\ Alive(E.h) THEN DExit(E.h) ELSE Lost 
 TQuiet   == Ev("quiet") /\ ~ENABLED Urgent /\ (up => chan = <<>> /\ bl = <<>>)
             /\ UNCHANGED <<obj, chan, bl, up, stopping, mem, wk, pc, cyc, now, bud, gh>>
 
-Silent == (CWaitWoken \/ CWaitTimeout \/ ProcFinish \/ Reply1 \/ SleepWake \/ SleepExpire \/ ParentEnd
+Silent == (CWaitWoken \/ CWaitTimeout \/ ProcFinish \/ Reply1 \/ SleepWake \/ SleepExpire \/ ParentEnd \/ (\E h \in H : InvokeTimeout(h))
            \/ (\E h \in DHs : StopSet(h) \/ Stage(h) \/ StageC(h) \/ KCancel(h) \/ KDrop(h) \/ REnd(h)) \/ Decide \/ KillerExit \/ WorkerAbort) /\ Keep
 Advance == /\ l <= Len(T) /\ E.t > now /\ ~ENABLED Urgent
            /\ now' = now + 1          \* second by second: a deadline in between may not be jumped over
            /\ UNCHANGED <<obj, chan, bl, up, stopping, mem, wk, pc, cyc, bud, gh, conf, tid, l>>
 
 AllInv == InvokeGoverned /\ InvokeCauseOk /\ CloseExactlyWhenDone /\ NeverEarly /\ ForeignUntouched /\ ResumeOnce
-          /\ FreshOrTimedOut /\ RetriesBounded /\ Stealth /\ DaemonStages
+          /\ FreshOrTimedOut /\ RetriesBounded /\ Stealth /\ DaemonStages /\ NoLateAttempt
 FirstBad == IF ~InvokeGoverned THEN "InvokeGoverned" ELSE IF ~InvokeCauseOk THEN "InvokeCauseOk"
             ELSE IF ~CloseExactlyWhenDone THEN "CloseExactlyWhenDone" ELSE IF ~NeverEarly THEN "NeverEarly"
             ELSE IF ~ForeignUntouched THEN "ForeignUntouched" ELSE IF ~ResumeOnce THEN "ResumeOnce"
             ELSE IF ~FreshOrTimedOut THEN "FreshOrTimedOut" ELSE IF ~RetriesBounded THEN "RetriesBounded"
-            ELSE IF ~Stealth THEN "Stealth" ELSE IF ~DaemonStages THEN "DaemonStages" ELSE "none"
+            ELSE IF ~Stealth THEN "Stealth" ELSE IF ~DaemonStages THEN "DaemonStages" ELSE IF ~NoLateAttempt THEN "NoLateAttempt" ELSE "none"
 
 TStep == TEdit \/ TDelete \/ TFin \/ TDeliver \/ TBegin \/ TInv \/ TMerge \/ TJson \/ TEnd \/ TKill \/ TStop \/ TDown
          \/ TList \/ TQuiet \/ TExiting \/ TEnter \/ TSeen \/ TCancel \/ TExit \/ Silent \/ Advance
